@@ -62,7 +62,7 @@ pub fn budget(prop: &str, tier: Tier) -> u64 {
         "C10" => 3000,
         "C13" => 1600,
         "C03" => 120,
-        "C15" => 100,
+        "C15" => 64,
         "C17" => 3000,
         "C14" => 3000,
         "C06" => 3000,
